@@ -269,8 +269,8 @@ def cmd_check(prop, tier, seed, only=None, jobs=None, verbose=False):
         if only and hname not in only:
             continue
         cubes = h['cubes'](tier, seed)
-        budget = h.get('budget_s', {}).get(tier, 300 if tier == 'quick'
-                                           else 1500)
+        budget = h.get('budget_s', {}).get(tier, 600 if tier == 'quick'
+                                           else 3600)
         for params in cubes:
             items.append((hname, params, budget))
         per_h[hname] = {'cubes': len(cubes), 'paths': 0, 'decisions': 0,
